@@ -129,6 +129,7 @@ func isBool(t types.Type) bool {
 
 // VC accumulates declarations, assumptions and obligations for one function.
 type VC struct {
+	nameDefs map[string]string // when non-nil: definitions of the constants introduced by name() (probe runs read heap terms through them)
 	prog     *Program
 	decls    []string
 	declared map[string]bool
@@ -249,6 +250,9 @@ func (vc *VC) name(prefix, sort string, t Term) Term {
 	}
 	c := vc.fresh(prefix, sort)
 	vc.assume(fmt.Sprintf("(= %s %s)", c, t))
+	if vc.nameDefs != nil {
+		vc.nameDefs[c] = t
+	}
 	return c
 }
 
